@@ -55,15 +55,13 @@ def _all_cases(C, tier, seed):
         out.append(('decls', 'C10 range declared-functions-scanned:%d | 1' % res['declared']))
     except Exception as e:   # clang missing / AST not parseable: the tie is broken, say so
         out.append(('decls', 'C10 inst decl-scan-failed:%s | 1' % type(e).__name__))
-    if os.environ.get('C10_ONLY_OWN'):      # mutation trials (tools/dev/mutations_c10.py): own harness, units and declaration scan only
-        return out
     # public-API coverage (tools/api_coverage.py): every public function declared under include/AIToolbox (clang AST; class templates
     # through their members) must be referenced by some harness object (nm of harness/c*.cpp compiled -O0) or be accounted for, with a
     # reason, in tools/props/c10_api_accounted.py; a function defined in a header without `inline` breaks every two-unit program
     try:
         import api_coverage
         res = api_coverage.coverage()
-        acc, unacc = api_coverage.accounted_for(res)
+        acc, unacc = api_coverage.accounted_for(res)[:2]
         for d in unacc:
             name = d['sig'].replace(' ', '')
             out.append(('api:' + name, 'C10 api %s | 0' % name))
@@ -76,6 +74,8 @@ def _all_cases(C, tier, seed):
         out.append(('apicov', 'C10 range public-api-scanned:%d:referenced:%d:accounted:%d | 1' % (res['public'], res['covered'], len(acc))))
     except Exception as e:
         out.append(('apicov', 'C10 api coverage-scan-failed:%s | 0' % type(e).__name__))
+    if os.environ.get('C10_ONLY_OWN'):      # mutation trials (tools/dev/mutations_c10.py): the other properties' harnesses are not rebuilt and run
+        return out
     limit = 150 if tier == 'thorough' else 25
     here = os.path.dirname(os.path.abspath(__file__))
     for f in sorted(glob.glob(os.path.join(here, 'c[0-9][0-9].py'))):
